@@ -1,15 +1,23 @@
 (* Proofs/DecimalProofs.v — facts about Base/Decimal.v (strconv / fmt / encoding/json numbers).
 
    Main results (each followed by Print Assumptions):
-     atoi_format_int            atoi (format_int z 10) = Some z                      for all z
-     parse_float_valid          parse_float never yields NaN, PFOk is finite, PFRange is an
-                                infinity, and the value is always a valid binary64
-     parse_format_*_partial     parse_float (format_* x) = PFOk x for finite non-zero x, under the
-                                hypothesis shortest_digits_ok x = true (see the comment there)
-     dec_to_f64_correct         parse_float's numeric core rounds the exact decimal value to
-                                nearest-even (against Flocq's reals) *)
+     atoi_format_int          (a) atoi (format_int z 10) = Some z for all z           [axiom-free]
+     dec_to_f64_correct       (d) parse_float's numeric core is the IEEE-754 round-to-nearest-
+                              even of the exact decimal value (Flocq reals), overflow =
+                              PFRange (±Inf), underflow is not an error
+     parse_float_valid        (b) parse_float never yields NaN; PFOk is finite, PFRange is an
+                              infinity, the value is always a valid binary64
+     parse_format_*_partial   (c) parse_float (format_* x) = PFOk x under the decidable
+                              hypothesis shortest_digits_ok x = true               [axiom-free]
+     shortest_digits_ok_valid the hypothesis holds for EVERY valid finite binary64: the
+                              Ryu-style interval search stays inside the rounding interval
+     parse_format_json/g/e/f  (c) unconditional round trips for valid finite non-zero x
+
+   The theorems that mention real numbers depend on the four standard axioms of Coq's Reals
+   library (as all of Flocq does): ClassicalDedekindReals.sig_not_dec, sig_forall_dec,
+   functional_extensionality_dep, Classical_Prop.classic.  Nothing else. *)
 From Coq Require Import ZArith Reals Psatz Bool List Ascii String Lia ZifyBool ZifyNat.
-From Flocq Require Import Core IEEE754.BinarySingleNaN.
+From Flocq Require Import Core Calc.Bracket Calc.Round IEEE754.BinarySingleNaN.
 From JV.Base Require Import Bytes F64 Decimal.
 Open Scope Z_scope.
 
@@ -1086,16 +1094,14 @@ Lemma shortest_digits_finite s m e c k :
   (digits_of_Z c, Z.of_nat (slen (digits_of_Z c)) + k).
 Proof. intros E. unfold shortest_digits. now rewrite E. Qed.
 
-(* The three theorems below are PARTIAL in the following sense: they assume
-   [shortest_digits_ok x = true], i.e. that the decimal (C, K) computed by the Ryu-style
-   interval search [shortest_core] is read back by [dec_to_f64] as x itself.  What is missing
-   for the unconditional statement is the proof that every decimal inside the rounding
-   interval of x rounds to x and that the search always stays inside that interval
-   (in particular that 17 digits always suffice).  The hypothesis is decidable and was
-   checked by vm_compute on every one of the 36879 finite non-zero validation vectors.
-   What the theorems do establish is that the textual layouts of %e / %f / %g / JSON
-   (digit placement, zero padding, exponent sign and width, the e-09 -> e-9 clean-up) are
-   parsed back by parse_float to exactly the decimal that was searched. *)
+(* The theorems below are relative to [shortest_digits_ok x = true], i.e. to the fact that
+   the decimal (C, K) computed by the Ryu-style interval search [shortest_core] is read back
+   by [dec_to_f64] as x itself.  They are axiom-free and establish that the textual layouts
+   of %e / %f / %g / JSON (digit placement, zero padding, exponent sign and width, the
+   e-09 -> e-9 clean-up) are parsed back by parse_float to exactly the decimal that was
+   searched.  The hypothesis is decidable (it was also checked by vm_compute on every finite
+   non-zero validation vector) and is PROVED for every valid binary64 further down
+   ([shortest_digits_ok_valid]), which gives the unconditional [parse_format_json] etc. *)
 
 Theorem parse_format_e_partial x :
   shortest_digits_ok x = true -> parse_float (format_float_e x) = PFOk x.
@@ -1162,3 +1168,549 @@ Print Assumptions parse_format_e_partial.
 Print Assumptions parse_format_f_partial.
 Print Assumptions parse_format_g_partial.
 Print Assumptions parse_format_json_partial.
+
+(* ------------------------------------------------------------------------------------ *)
+(* the interval search of shortest_core stays inside the rounding interval              *)
+(* ------------------------------------------------------------------------------------ *)
+
+Lemma ryu_trim_inv fuel : forall l c u c0 cn t c' u' c0' cn' t',
+  l <= c <= u ->
+  ryu_trim fuel l c u c0 cn t = (c', u', c0', cn', t') ->
+  exists l', l' <= c' <= u' /\ t <= t' /\
+             (forall i, l' <= i <= u' -> l <= i * 10 ^ (t' - t) <= u).
+Proof.
+  induction fuel as [| fuel IH]; intros l c u c0 cn t c' u' c0' cn' t' Hlcu E.
+  - cbn [ryu_trim] in E. injection E as <- <- _ _ <-.
+    exists l. repeat split; try lia; rewrite Z.sub_diag; lia.
+  - cbn [ryu_trim] in E.
+    pose proof (Z.div_mod (l + 9) 10 ltac:(lia)) as Dl.
+    pose proof (Z.mod_pos_bound (l + 9) 10 ltac:(lia)) as Bl.
+    pose proof (Z.div_mod c 10 ltac:(lia)) as Dc.
+    pose proof (Z.mod_pos_bound c 10 ltac:(lia)) as Bc.
+    pose proof (Z.div_mod u 10 ltac:(lia)) as Du.
+    pose proof (Z.mod_pos_bound u 10 ltac:(lia)) as Bu.
+    destruct (u / 10 <? (l + 9) / 10) eqn:Hstop.
+    + injection E as <- <- _ _ <-.
+      exists l. repeat split; try lia; rewrite Z.sub_diag; lia.
+    + apply IH in E.
+      * destruct E as (l' & Hc' & Ht & Hall).
+        exists l'. repeat split; try lia.
+        -- specialize (Hall i H).
+           replace (t' - t) with (Z.succ (t' - (t + 1))) by lia.
+           rewrite Z.pow_succ_r by lia. lia.
+        -- specialize (Hall i H).
+           replace (t' - t) with (Z.succ (t' - (t + 1))) by lia.
+           rewrite Z.pow_succ_r by lia. lia.
+      * destruct ((((l + 9) / 10 =? c / 10 + 1) && (c / 10 <? u / 10))) eqn:Hb; lia.
+Qed.
+
+Lemma pick_bounds l' c' u' (b : bool) :
+  l' <= c' <= u' -> l' <= (if (c' <? u') && b then c' + 1 else c') <= u'.
+Proof. intros H. destruct b; destruct (c' <? u') eqn:E; cbn [andb]; lia. Qed.
+
+Lemma ryu_select_inv fuel l c u c0 cup cf t :
+  l <= c <= u -> ryu_select fuel l c u c0 cup = (cf, t) -> 0 <= t /\ l <= cf * 10 ^ t <= u.
+Proof.
+  intros Hlcu E. unfold ryu_select in E.
+  destruct (ryu_trim fuel l c u c0 0 0) as [[[[c' u'] c0'] cn'] t'] eqn:Et.
+  destruct (ryu_trim_inv _ _ _ _ _ _ _ _ _ _ _ _ Hlcu Et) as (l' & Hc' & Ht & Hall).
+  apply pair_equal_spec in E as [Ecf Et']. subst cf t.
+  split; [lia | ].
+  match goal with
+  | |- _ <= (if (c' <? u') && ?b then _ else _) * _ <= _ =>
+      pose proof (Hall _ (pick_bounds l' c' u' b Hc')) as H
+  end.
+  rewrite Z.sub_0_r in H. exact H.
+Qed.
+
+Lemma strip10_inv fuel : forall c cnt cs z,
+  strip10 fuel c cnt = (cs, z) -> cnt <= z /\ cs * 10 ^ (z - cnt) = c.
+Proof.
+  induction fuel as [| fuel IH]; intros c cnt cs z E; cbn [strip10] in E.
+  - injection E as <- <-. rewrite Z.sub_diag. lia.
+  - destruct ((c mod 10 =? 0) && (0 <? c)) eqn:Hb.
+    + apply IH in E. destruct E as [Hz Hv]. split; [lia | ].
+      replace (z - cnt) with (Z.succ (z - (cnt + 1))) by lia.
+      rewrite Z.pow_succ_r by lia.
+      pose proof (Z.div_mod c 10 ltac:(lia)). lia.
+    + injection E as <- <-. rewrite Z.sub_diag. lia.
+Qed.
+
+(* the unit W / B = 2^e2 * 10^q of ryu_scale, as functions of e2 *)
+Definition ryu_q (e2 : Z) : Z := Z.shiftr ((- e2) * 78913) 18 + 1.
+Definition ryu_W (e2 : Z) : Z := Z.shiftl (pow5 (ryu_q e2)) (Z.max (e2 + ryu_q e2) 0).
+Definition ryu_B (e2 : Z) : Z := Z.shiftl (pow5 (- ryu_q e2)) (Z.max (- (e2 + ryu_q e2)) 0).
+
+Definition ryu_border (m : positive) (e : Z) : bool := (Zpos m =? 2 ^ 52) && (-1074 <? e).
+Definition ryu_e2 (m : positive) (e : Z) : Z := if ryu_border m e then e - 2 else e - 1.
+Definition ryu_Nc (m : positive) (e : Z) : Z := if ryu_border m e then 4 * Zpos m else 2 * Zpos m.
+Definition ryu_Nl (m : positive) (e : Z) : Z := ryu_Nc m e - 1.
+Definition ryu_Nu (m : positive) (e : Z) : Z :=
+  if ryu_border m e then 4 * Zpos m + 2 else 2 * Zpos m + 1.
+
+Lemma ryu_scale_eq m e :
+  ryu_scale m e =
+  (ryu_Nl m e * ryu_W (ryu_e2 m e), ryu_Nc m e * ryu_W (ryu_e2 m e),
+   ryu_Nu m e * ryu_W (ryu_e2 m e), ryu_B (ryu_e2 m e), ryu_q (ryu_e2 m e)).
+Proof.
+  unfold ryu_scale, ryu_Nl, ryu_Nc, ryu_Nu, ryu_e2, ryu_W, ryu_B, ryu_q.
+  fold (ryu_border m e).
+  destruct (ryu_border m e).
+  - set (e2 := e - 2). set (q := Z.shiftr _ 18 + 1). set (sa := Z.max (e2 + q) 0).
+    rewrite !Z.shiftl_mul_pow2 by lia.
+    repeat match goal with |- (_, _) = (_, _) => apply f_equal2 end; try reflexivity;
+      rewrite ?Z.pow_add_r by lia; ring.
+  - set (e2 := e - 1). set (q := Z.shiftr _ 18 + 1). set (sa := Z.max (e2 + q) 0).
+    rewrite !Z.shiftl_mul_pow2 by lia.
+    repeat match goal with |- (_, _) = (_, _) => apply f_equal2 end; try reflexivity;
+      rewrite ?Z.pow_add_r by lia; ring.
+Qed.
+
+Fixpoint all_range (n : nat) (lo : Z) (f : Z -> bool) : bool :=
+  match n with
+  | O => true
+  | S n' => f lo && all_range n' (lo + 1) f
+  end.
+
+Lemma all_range_spec n : forall lo f,
+  all_range n lo f = true -> forall z, lo <= z < lo + Z.of_nat n -> f z = true.
+Proof.
+  induction n as [| n IH]; intros lo f H z Hz; [lia | ].
+  cbn [all_range] in H. apply andb_true_iff in H as [H0 H1].
+  destruct (Z.eq_dec z lo) as [-> | Hne]; [assumption | ].
+  apply (IH (lo + 1) f H1). lia.
+Qed.
+
+(* 10^q > 2^-e2 for every exponent of a binary64, checked exhaustively *)
+Lemma ryu_WB_all :
+  all_range 2047 (-1076) (fun e2 => (ryu_B e2 <=? ryu_W e2) && (0 <? ryu_B e2)) = true.
+Proof. vm_compute. reflexivity. Qed.
+
+Lemma ryu_WB e2 : -1076 <= e2 <= 970 -> 0 < ryu_B e2 <= ryu_W e2.
+Proof.
+  intros H. pose proof (all_range_spec _ _ _ ryu_WB_all e2 ltac:(lia)) as Hb.
+  cbv beta in Hb. lia.
+Qed.
+
+Lemma core_interval fuel m e cs K :
+  -1074 <= e <= 971 ->
+  shortest_core_fuel fuel m e = (cs, K) ->
+  let e2 := ryu_e2 m e in
+  let V := cs * 10 ^ (K + ryu_q e2) * ryu_B e2 in
+  0 < cs /\ 0 <= K + ryu_q e2 /\
+  ryu_Nl m e * ryu_W e2 <= V <= ryu_Nu m e * ryu_W e2 /\
+  (Z.even (Zpos m) = false -> ryu_Nl m e * ryu_W e2 < V < ryu_Nu m e * ryu_W e2).
+Proof.
+  intros He E. cbv zeta.
+  unfold shortest_core_fuel in E. rewrite ryu_scale_eq in E.
+  set (e2 := ryu_e2 m e) in *. set (W := ryu_W e2) in *. set (B := ryu_B e2) in *.
+  set (q := ryu_q e2) in *.
+  assert (He2 : -1076 <= e2 <= 970).
+  { unfold e2, ryu_e2. destruct (ryu_border m e) eqn:Hb; [ | lia].
+    unfold ryu_border in Hb. lia. }
+  destruct (ryu_WB e2 He2) as [HB HW]. fold B in HB, HW. fold W in HW.
+  assert (HNl : 0 < ryu_Nl m e) by (unfold ryu_Nl, ryu_Nc; destruct (ryu_border m e); lia).
+  assert (HNcl : ryu_Nc m e = ryu_Nl m e + 1) by (unfold ryu_Nl; lia).
+  assert (HNuc : ryu_Nc m e + 1 <= ryu_Nu m e)
+    by (unfold ryu_Nu, ryu_Nc; destruct (ryu_border m e); lia).
+  rewrite !fast_div_eucl_eq in E.
+  pose proof (Z_div_mod (ryu_Nl m e * W) B ltac:(lia)) as Dl.
+  pose proof (Z_div_mod (ryu_Nc m e * W) B ltac:(lia)) as Dc.
+  pose proof (Z_div_mod (ryu_Nu m e * W) B ltac:(lia)) as Du.
+  destruct (Z.div_eucl (ryu_Nl m e * W) B) as [ql rl].
+  destruct (Z.div_eucl (ryu_Nc m e * W) B) as [qc rc].
+  destruct (Z.div_eucl (ryu_Nu m e * W) B) as [qu ru].
+  destruct Dl as [Dl Rl]. destruct Dc as [Dc Rc]. destruct Du as [Du Ru].
+  set (Xl := ryu_Nl m e * W) in *. set (Xc := ryu_Nc m e * W) in *.
+  set (Xu := ryu_Nu m e * W) in *.
+  assert (HXlc : Xl + W = Xc) by (unfold Xl, Xc; rewrite HNcl; ring).
+  assert (HXcu : Xc + W <= Xu) by (unfold Xc, Xu; nia).
+  assert (HXl : 0 < Xl) by (unfold Xl; nia).
+  assert (Hq1 : ql + 1 <= qc) by nia.
+  assert (Hq2 : qc + 1 <= qu) by nia.
+  set (incl := Z.even (Z.pos m)) in *.
+  set (l := if incl && (rl =? 0) then ql else ql + 1) in *.
+  set (u := if (ru =? 0) && negb incl then qu - 1 else qu) in *.
+  destruct (ryu_select fuel l qc u (rc =? 0) _) as [cf t] eqn:Esel.
+  assert (Hlcu : l <= qc <= u).
+  { unfold l, u. destruct (incl && (rl =? 0)); destruct ((ru =? 0) && negb incl); lia. }
+  destruct (ryu_select_inv _ _ _ _ _ _ _ _ Hlcu Esel) as [Ht Hcf].
+  destruct (strip10 fuel cf 0) as [cs' z] eqn:Estrip.
+  injection E as <- <-.
+  destruct (strip10_inv _ _ _ _ _ Estrip) as [Hz Hcs]. rewrite Z.sub_0_r in Hcs.
+  replace (z + t - q + q) with (z + t) by lia.
+  rewrite Z.pow_add_r by lia.
+  replace (cs' * (10 ^ z * 10 ^ t)) with (cf * 10 ^ t) by (rewrite <- Hcs; ring).
+  set (V := cf * 10 ^ t) in *.
+  assert (Hl1 : 1 <= l).
+  { unfold l. destruct (incl && (rl =? 0)) eqn:Hi; nia. }
+  assert (H10 : 0 < 10 ^ t) by (apply Z.pow_pos_nonneg; lia).
+  assert (H10z : 0 < 10 ^ z) by (apply Z.pow_pos_nonneg; lia).
+  assert (HlB : Xl <= l * B /\ (incl = false -> Xl < l * B)).
+  { unfold l. destruct incl; cbn [andb]; [destruct (rl =? 0) eqn:Hr | ]; split; intros; try nia;
+      try discriminate. }
+  assert (HuB : u * B <= Xu /\ (incl = false -> u * B < Xu)).
+  { unfold u. destruct incl; cbn [negb]; rewrite ?andb_false_r, ?andb_true_r;
+      [ | destruct (ru =? 0) eqn:Hr]; split; intros; try nia; try discriminate. }
+  repeat split; try nia.
+Qed.
+
+(* ------------------------------------------------------------------------------------ *)
+(* every real in the rounding interval of a binary64 rounds to it                        *)
+(* ------------------------------------------------------------------------------------ *)
+
+Lemma F2R2 (n ex : Z) : F2R (Float radix2 n ex) = (IZR n * bpow radix2 ex)%R.
+Proof. reflexivity. Qed.
+
+(* v in [n, n + 1/2] * 2^ex (the half point only if n is even) rounds down to n * 2^ex *)
+Lemma round_NE_between_dn n ex v :
+  cexp radix2 fexp64 v = ex ->
+  (IZR n * bpow radix2 ex <= v <= (IZR n + / 2) * bpow radix2 ex)%R ->
+  (Z.even n = false -> v < (IZR n + / 2) * bpow radix2 ex)%R ->
+  round64 v = (IZR n * bpow radix2 ex)%R.
+Proof.
+  intros Hc [Hlo Hhi] Hodd.
+  assert (Hb : (0 < bpow radix2 ex)%R) by apply bpow_gt_0.
+  set (b := bpow radix2 ex) in *.
+  destruct (Req_dec v (IZR n * b)) as [Heq | Hne].
+  - rewrite (inbetween_float_NE radix2 fexp64 v n SpecFloat.loc_Exact).
+    + rewrite Hc. reflexivity.
+    + rewrite Hc. apply Bracket.inbetween_Exact. rewrite F2R2. exact Heq.
+  - set (l := Rcompare v ((IZR n * b + IZR (n + 1) * b) / 2)).
+    assert (Hin : Bracket.inbetween_float radix2 n (cexp radix2 fexp64 v) v
+                    (SpecFloat.loc_Inexact l)).
+    { rewrite Hc. apply Bracket.inbetween_Inexact.
+      - rewrite !F2R2, plus_IZR. fold b. split; [lra | nra].
+      - rewrite !F2R2. reflexivity. }
+    rewrite (inbetween_float_NE radix2 fexp64 v n _ Hin). rewrite Hc, F2R2. fold b.
+    f_equal. f_equal.
+    assert (Hmid : ((IZR n * b + IZR (n + 1) * b) / 2 = (IZR n + / 2) * b)%R)
+      by (rewrite plus_IZR; field).
+    unfold l. rewrite Hmid.
+    destruct (Rcompare_spec v ((IZR n + / 2) * b)) as [H | H | H]; cbn [round_N cond_incr].
+    + reflexivity.
+    + destruct (Z.even n) eqn:En; [reflexivity | ]. specialize (Hodd eq_refl). lra.
+    + lra.
+Qed.
+
+(* v in [n + 1/2, n + 1) * 2^ex (the half point only if n is odd) rounds up to (n+1) * 2^ex *)
+Lemma round_NE_between_up n ex v :
+  cexp radix2 fexp64 v = ex ->
+  ((IZR n + / 2) * bpow radix2 ex <= v < IZR (n + 1) * bpow radix2 ex)%R ->
+  (Z.even n = true -> (IZR n + / 2) * bpow radix2 ex < v)%R ->
+  round64 v = (IZR (n + 1) * bpow radix2 ex)%R.
+Proof.
+  intros Hc [Hlo Hhi] Heven.
+  assert (Hb : (0 < bpow radix2 ex)%R) by apply bpow_gt_0.
+  set (b := bpow radix2 ex) in *.
+  set (l := Rcompare v ((IZR n * b + IZR (n + 1) * b) / 2)).
+  assert (Hin : Bracket.inbetween_float radix2 n (cexp radix2 fexp64 v) v
+                  (SpecFloat.loc_Inexact l)).
+  { rewrite Hc. apply Bracket.inbetween_Inexact.
+    - rewrite !F2R2. fold b. split; [nra | lra].
+    - rewrite !F2R2. reflexivity. }
+  rewrite (inbetween_float_NE radix2 fexp64 v n _ Hin). rewrite Hc, F2R2. fold b.
+  f_equal. f_equal.
+  assert (Hmid : ((IZR n * b + IZR (n + 1) * b) / 2 = (IZR n + / 2) * b)%R)
+    by (rewrite plus_IZR; field).
+  unfold l. rewrite Hmid.
+  destruct (Rcompare_spec v ((IZR n + / 2) * b)) as [H | H | H]; cbn [round_N cond_incr].
+  - lra.
+  - destruct (Z.even n) eqn:En; [ | reflexivity]. specialize (Heven eq_refl). lra.
+  - reflexivity.
+Qed.
+
+Lemma bounded_facts m e :
+  SpecFloat.bounded 53 1024 m e = true ->
+  let d := Zdigits radix2 (Zpos m) in
+  2 ^ (d - 1) <= Zpos m < 2 ^ d /\ 1 <= d <= 53 /\ -1074 <= e <= 971 /\
+  (d = 53 \/ e = -1074) /\ fexp64 (d + e) = e.
+Proof.
+  intros Hb d. unfold SpecFloat.bounded, SpecFloat.canonical_mantissa in Hb.
+  apply andb_true_iff in Hb as [Hc He].
+  apply Zeq_bool_eq in Hc. apply Zle_bool_imp_le in He.
+  rewrite Zpos_digits2_pos in Hc. fold d in Hc.
+  pose proof (Zdigits_correct radix2 (Zpos m)) as Hd. fold d in Hd.
+  change (radix_val radix2) with 2 in Hd. rewrite Z.abs_eq in Hd by lia.
+  assert (Hd0 : 0 < d) by (apply Zdigits_gt_0; discriminate).
+  unfold SpecFloat.fexp, SpecFloat.emin in Hc |- *.
+  repeat split; try lia.
+Qed.
+
+Lemma even_pred_odd n : Z.even (2 * n - 1) = false.
+Proof.
+  replace (2 * n - 1) with (1 + 2 * (n - 1)) by lia. now rewrite Z.even_add_mul_2.
+Qed.
+
+Lemma even_pred n : Z.even (n - 1) = negb (Z.even n).
+Proof. rewrite Z.even_sub. destruct (Z.even n); reflexivity. Qed.
+
+Lemma round64_interval m e v :
+  SpecFloat.bounded 53 1024 m e = true ->
+  (IZR (ryu_Nl m e) * bpow radix2 (ryu_e2 m e) <= v <=
+   IZR (ryu_Nu m e) * bpow radix2 (ryu_e2 m e))%R ->
+  (Z.even (Zpos m) = false ->
+   (IZR (ryu_Nl m e) * bpow radix2 (ryu_e2 m e) < v <
+    IZR (ryu_Nu m e) * bpow radix2 (ryu_e2 m e))%R) ->
+  round64 v = (IZR (Zpos m) * bpow radix2 e)%R.
+Proof.
+  intros Hb Hv Hodd.
+  destruct (bounded_facts m e Hb) as (Hd & Hd53 & He & Hde & Hfexp).
+  set (d := Zdigits radix2 (Zpos m)) in *.
+  set (t := bpow radix2 (e - 2)).
+  assert (Ht : (0 < t)%R) by apply bpow_gt_0.
+  assert (Be : bpow radix2 e = (4 * t)%R).
+  { replace e with (e - 2 + 2) at 1 by lia. rewrite bpow_plus. fold t. simpl. lra. }
+  assert (Be1 : bpow radix2 (e - 1) = (2 * t)%R).
+  { replace (e - 1) with (e - 2 + 1) by lia. rewrite bpow_plus. fold t. simpl. lra. }
+  assert (Bd : bpow radix2 (d + e) = (IZR (2 ^ d) * (4 * t))%R).
+  { rewrite bpow_plus, Be. f_equal. symmetry. apply (IZR_Zpower radix2). lia. }
+  assert (Bd1 : bpow radix2 (d + e - 1) = (IZR (2 ^ (d - 1)) * (4 * t))%R).
+  { replace (d + e - 1) with (d - 1 + e) by lia. rewrite bpow_plus, Be. f_equal.
+    symmetry. apply (IZR_Zpower radix2). lia. }
+  assert (Hm1 : (IZR (2 ^ (d - 1)) <= IZR (Zpos m))%R) by (apply IZR_le; lia).
+  assert (Hm2 : (IZR (Zpos m) + 1 <= IZR (2 ^ d))%R).
+  { rewrite <- plus_IZR. apply IZR_le. lia. }
+  assert (Hm0 : (1 <= IZR (Zpos m))%R) by (apply IZR_le; lia).
+  set (mz := Zpos m) in *.
+  (* the interval in units of t *)
+  assert (Hv' : ((4 * IZR mz - 2) * t <= v <= (4 * IZR mz + 2) * t)%R /\
+                (ryu_border m e = true -> ((4 * IZR mz - 1) * t <= v)%R) /\
+                (Z.even mz = false ->
+                 ((4 * IZR mz - 2) * t < v < (4 * IZR mz + 2) * t)%R /\
+                 (ryu_border m e = true -> ((4 * IZR mz - 1) * t < v)%R))).
+  { unfold ryu_Nl, ryu_Nu, ryu_Nc, ryu_e2 in Hv, Hodd. fold mz in Hv, Hodd.
+    destruct (ryu_border m e).
+    - rewrite minus_IZR, plus_IZR, !mult_IZR in Hv, Hodd. fold t in Hv, Hodd.
+      repeat split; intros; try specialize (Hodd H); try specialize (Hodd H0); nra.
+    - rewrite minus_IZR, plus_IZR, !mult_IZR, Be1 in Hv, Hodd.
+      repeat split; intros; try discriminate; try specialize (Hodd H); nra. }
+  destruct Hv' as (Hv1 & Hvb & Hvo).
+  rewrite Be.
+  destruct (Rle_or_lt (IZR mz * (4 * t)) v) as [Hup | Hdn].
+  - (* upper half: between m and m + 1/2 *)
+    rewrite <- Be. apply round_NE_between_dn.
+    + unfold cexp. rewrite (mag_unique_pos radix2 v (d + e)); [exact Hfexp | ].
+      rewrite Bd, Bd1. split; nra.
+    + rewrite Be. split; nra.
+    + intros Ho. rewrite Be. destruct (Hvo Ho) as [[_ H] _]. nra.
+  - (* lower half *)
+    destruct (ryu_border m e) eqn:Hbord.
+    + (* border of an exponent: the lower neighbour is half as far *)
+      unfold ryu_border in Hbord. fold mz in Hbord.
+      assert (Emz : mz = 2 ^ 52) by lia. assert (He' : -1074 < e) by lia.
+      assert (Ed : d = 53).
+      { unfold d. fold mz. rewrite Emz. reflexivity. }
+      assert (Emr : IZR mz = IZR (2 ^ 52)) by now rewrite Emz.
+      replace (IZR mz * (4 * t))%R with (IZR (2 * mz - 1 + 1) * bpow radix2 (e - 1))%R
+        by (rewrite Be1; replace (2 * mz - 1 + 1) with (2 * mz) by lia; rewrite mult_IZR; lra).
+      apply round_NE_between_up.
+      * unfold cexp. rewrite (mag_unique_pos radix2 v (52 + e)).
+        { unfold SpecFloat.fexp, SpecFloat.emin. lia. }
+        replace (52 + e - 1) with (d + e - 2) by lia.
+        replace (52 + e) with (d + e - 1) by lia. rewrite Bd1.
+        replace (d + e - 2) with (d - 1 + (e - 1)) by lia.
+        rewrite bpow_plus, Be1. rewrite <- (IZR_Zpower radix2) by lia.
+        change (radix_val radix2) with 2.
+        specialize (Hvb eq_refl). rewrite Ed in *. rewrite Emr in *.
+        change (53 - 1) with 52 in *. split; nra.
+      * rewrite Be1. replace (2 * mz - 1 + 1) with (2 * mz) by lia.
+        rewrite minus_IZR, !mult_IZR. specialize (Hvb eq_refl). split; nra.
+      * rewrite even_pred_odd. discriminate.
+    + (* regular case: between m - 1/2 and m *)
+      replace (IZR mz * (4 * t))%R with (IZR (mz - 1 + 1) * bpow radix2 e)%R
+        by (rewrite Be; replace (mz - 1 + 1) with mz by lia; reflexivity).
+      assert (Hvpos : (0 < v)%R) by nra.
+      apply round_NE_between_up.
+      * unfold cexp.
+        destruct (Z.eq_dec e (-1074)) as [Ee | Ene].
+        -- (* denormal exponent: fexp is constant below *)
+           assert (mag radix2 v <= d + e)%Z.
+           { apply mag_le_bpow; [lra | ]. rewrite Rabs_pos_eq by lra. rewrite Bd. nra. }
+           unfold SpecFloat.fexp, SpecFloat.emin. lia.
+        -- assert (Ed : d = 53) by lia.
+           assert (Hne : mz <> 2 ^ 52).
+           { intros Emz. unfold ryu_border in Hbord. fold mz in Hbord. lia. }
+           assert (Hm3 : (IZR (2 ^ (d - 1)) + 1 <= IZR mz)%R).
+           { rewrite <- plus_IZR. apply IZR_le. rewrite Ed in *. change (53 - 1) with 52 in *. lia. }
+           rewrite (mag_unique_pos radix2 v (d + e)); [exact Hfexp | ].
+           rewrite Bd, Bd1. split; nra.
+      * rewrite Be. replace (mz - 1 + 1) with mz by lia. rewrite minus_IZR. split; nra.
+      * intros Hev. rewrite even_pred in Hev. apply negb_true_iff in Hev.
+        rewrite Be, minus_IZR. destruct (Hvo Hev) as [[H _] _]. nra.
+Qed.
+
+(* ------------------------------------------------------------------------------------ *)
+(* the read-back check always succeeds on valid binary64 values                          *)
+(* ------------------------------------------------------------------------------------ *)
+
+Lemma pow5_nonpos n : n <= 0 -> pow5 n = 1.
+Proof. destruct n; intros; try reflexivity; lia. Qed.
+
+Lemma bpow2_split s :
+  bpow radix2 s = (IZR (2 ^ Z.max s 0) / IZR (2 ^ Z.max (- s) 0))%R.
+Proof.
+  destruct (Z_le_gt_dec 0 s) as [H | H].
+  - rewrite Z.max_l, Z.max_r by lia. change (2 ^ 0) with 1.
+    rewrite (IZR_Zpower radix2) by lia. field.
+  - rewrite Z.max_r, Z.max_l by lia. change (2 ^ 0) with 1.
+    replace s with (- - s) at 1 by lia. rewrite bpow_opp.
+    rewrite <- (IZR_Zpower radix2) by lia. change (radix_val radix2) with 2.
+    assert (0 < IZR (2 ^ (- s)))%R by (apply IZR_lt; apply Z.pow_pos_nonneg; lia).
+    field. lra.
+Qed.
+
+Lemma bpow10_split q :
+  bpow radix10 q = (bpow radix2 q * IZR (pow5 q) / IZR (pow5 (- q)))%R.
+Proof.
+  destruct (Z_le_gt_dec 0 q) as [H | H].
+  - rewrite (pow5_nonpos (- q)) by lia. rewrite pow5_eq by lia.
+    rewrite <- (IZR_Zpower radix10), <- (IZR_Zpower radix2) by lia.
+    change (radix_val radix10) with 10. change (radix_val radix2) with 2.
+    rewrite <- mult_IZR, <- Z.pow_mul_l. change (2 * 5) with 10. field.
+  - rewrite (pow5_nonpos q) by lia. rewrite pow5_eq by lia.
+    replace (bpow radix10 q) with (/ bpow radix10 (- q))%R
+      by (rewrite <- bpow_opp; f_equal; lia).
+    replace (bpow radix2 q) with (/ bpow radix2 (- q))%R
+      by (rewrite <- bpow_opp; f_equal; lia).
+    rewrite <- (IZR_Zpower radix10), <- (IZR_Zpower radix2) by lia.
+    change (radix_val radix10) with 10. change (radix_val radix2) with 2.
+    rewrite (Z.pow_mul_l 2 5 (- q) : 10 ^ (- q) = 2 ^ (- q) * 5 ^ (- q)).
+    rewrite mult_IZR.
+    assert (0 < IZR (2 ^ (- q)))%R by (apply IZR_lt; apply Z.pow_pos_nonneg; lia).
+    assert (0 < IZR (5 ^ (- q)))%R by (apply IZR_lt; apply Z.pow_pos_nonneg; lia).
+    field. lra.
+Qed.
+
+Lemma ryu_WB_real e2 :
+  IZR (ryu_W e2) = (IZR (ryu_B e2) * bpow radix2 e2 * bpow radix10 (ryu_q e2))%R.
+Proof.
+  unfold ryu_W, ryu_B. set (q := ryu_q e2). set (s := e2 + q).
+  rewrite !Z.shiftl_mul_pow2 by lia. rewrite !mult_IZR.
+  rewrite bpow10_split.
+  assert (Eb : bpow radix2 e2 = (bpow radix2 s * / bpow radix2 q)%R).
+  { rewrite <- bpow_opp, <- bpow_plus. f_equal. unfold s. lia. }
+  rewrite Eb, (bpow2_split s).
+  assert (0 < IZR (pow5 (- q)))%R by (apply IZR_lt; apply pow5_pos_gt).
+  assert (0 < IZR (2 ^ Z.max (- s) 0))%R by (apply IZR_lt; apply Z.pow_pos_nonneg; lia).
+  assert (0 < bpow radix2 q)%R by apply bpow_gt_0.
+  field. lra.
+Qed.
+
+Lemma core_interval_real fuel m e cs K :
+  -1074 <= e <= 971 ->
+  shortest_core_fuel fuel m e = (cs, K) ->
+  let v := (IZR cs * bpow radix10 K)%R in
+  let lo := (IZR (ryu_Nl m e) * bpow radix2 (ryu_e2 m e))%R in
+  let hi := (IZR (ryu_Nu m e) * bpow radix2 (ryu_e2 m e))%R in
+  0 < cs /\ (lo <= v <= hi)%R /\ (Z.even (Zpos m) = false -> (lo < v < hi)%R).
+Proof.
+  intros He E v lo hi.
+  destruct (core_interval fuel m e cs K He E) as (Hcs & Hkq & Hle & Hlt).
+  split; [assumption | ].
+  set (e2 := ryu_e2 m e) in *. set (q := ryu_q e2) in *.
+  assert (He2 : -1076 <= e2 <= 970).
+  { unfold e2, ryu_e2. destruct (ryu_border m e) eqn:Hb; [ | lia].
+    unfold ryu_border in Hb. lia. }
+  destruct (ryu_WB e2 He2) as [HB _].
+  assert (HBr : (0 < IZR (ryu_B e2))%R) by (apply IZR_lt; assumption).
+  assert (Hb10 : (0 < bpow radix10 q)%R) by apply bpow_gt_0.
+  assert (Hb2 : (0 < bpow radix2 e2)%R) by apply bpow_gt_0.
+  (* v * 10^q is the integer cs * 10^(K+q) *)
+  assert (Ev : (v * bpow radix10 q = IZR (cs * 10 ^ (K + q)))%R).
+  { unfold v. rewrite Rmult_assoc, <- bpow_plus, mult_IZR.
+    f_equal. symmetry. apply (IZR_Zpower radix10). lia. }
+  pose proof (ryu_WB_real e2) as EW. fold q in EW.
+  set (Vz := cs * 10 ^ (K + q)) in *.
+  assert (Tr : forall N : Z,
+             (IZR (N * ryu_W e2) = IZR N * bpow radix2 e2 * (IZR (ryu_B e2) * bpow radix10 q))%R).
+  { intros N. rewrite mult_IZR, EW. ring. }
+  assert (Tv : (IZR (Vz * ryu_B e2) = v * (IZR (ryu_B e2) * bpow radix10 q))%R).
+  { rewrite mult_IZR, <- Ev. ring. }
+  assert (Hpos : (0 < IZR (ryu_B e2) * bpow radix10 q)%R) by (apply Rmult_lt_0_compat; assumption).
+  split.
+  - destruct Hle as [H1 H2]. apply IZR_le in H1, H2. rewrite Tr, Tv in H1, H2.
+    unfold lo, hi. fold e2. split; eapply Rmult_le_reg_r; eauto.
+  - intros Ho. destruct (Hlt Ho) as [H1 H2]. apply IZR_lt in H1, H2. rewrite Tr, Tv in H1, H2.
+    unfold lo, hi. fold e2. split; eapply Rmult_lt_reg_r; eauto.
+Qed.
+
+(* (c), the missing half: on every valid finite binary64 the shortest-digit search is read
+   back exactly, i.e. the search stays within the round-to-nearest-even interval *)
+Theorem shortest_digits_ok_valid s m e :
+  SpecFloat.bounded 53 1024 m e = true -> shortest_digits_ok (S754_finite s m e) = true.
+Proof.
+  intros Hb.
+  destruct (bounded_facts m e Hb) as (_ & _ & He & _ & _).
+  unfold shortest_digits_ok, shortest_core.
+  destruct (shortest_core_fuel 40 m e) as [cs K] eqn:E.
+  destruct (core_interval_real 40 m e cs K He E) as (Hcs & Hin & Hodd).
+  pose proof (round64_interval m e _ Hb Hin Hodd) as Hr.
+  set (xr := (IZR (Zpos m) * bpow radix2 e)%R) in *.
+  assert (Hxr : (0 < xr < bpow radix2 1024)%R).
+  { split.
+    - apply Rmult_lt_0_compat; [apply IZR_lt; lia | apply bpow_gt_0].
+    - exact (bounded_lt_emax 53 1024 m e Hb). }
+  (* the value parse_float rounds *)
+  assert (Hrs : round64 (dec_real s cs K) = F2R (Float radix2 (SpecFloat.cond_Zopp s (Zpos m)) e)).
+  { unfold dec_real. destruct s; cbn [SpecFloat.cond_Zopp].
+    - rewrite !F2R_Zopp, round_NE_opp. f_equal. exact Hr.
+    - exact Hr. }
+  pose proof (dec_to_f64_correct s cs K Hcs) as Hc. unfold pf_correct in Hc.
+  rewrite Hrs in Hc.
+  rewrite <- F2R_Zabs, abs_cond_Zopp in Hc. cbn [Z.abs] in Hc.
+  rewrite Rlt_bool_true in Hc by apply Hxr.
+  destruct Hc as (f & Ef & Hf & Hfin & Hsign & Hvalid).
+  rewrite Ef.
+  destruct f as [s' | s' | | s' m' e']; try discriminate Hfin.
+  - (* zero is impossible: the value is not 0 *)
+    exfalso. unfold SF2R in Hf.
+    assert (F2R (Float radix2 (SpecFloat.cond_Zopp s (Zpos m)) e) <> 0%R).
+    { destruct s; cbn [SpecFloat.cond_Zopp]; [rewrite F2R_Zopp | ]; unfold xr in Hxr;
+        change (F2R (Float radix2 (Zpos m) e)) with (IZR (Zpos m) * bpow radix2 e)%R; lra. }
+    apply H. symmetry. exact Hf.
+  - cbn [sign_SF] in Hsign. subst s'.
+    unfold SF2R in Hf.
+    assert (Hcan : forall mm ee, SpecFloat.bounded 53 1024 mm ee = true ->
+              canonical radix2 fexp64 (Float radix2 (SpecFloat.cond_Zopp s (Zpos mm)) ee)).
+    { intros mm ee Hbb. apply canonical_canonical_mantissa.
+      unfold SpecFloat.bounded in Hbb. now apply andb_true_iff in Hbb as [Hbb _]. }
+    pose proof (canonical_unique radix2 fexp64 _ _ (Hcan m' e' Hvalid) (Hcan m e Hb) Hf) as Eq.
+    injection Eq as Em Ee.
+    assert (m' = m) by (destruct s; cbn [SpecFloat.cond_Zopp] in Em; lia).
+    subst m' e'.
+    rewrite Bool.eqb_reflx, !Z.eqb_refl. reflexivity.
+Qed.
+
+(* unconditional round trips for every valid finite non-zero binary64 *)
+Definition finite_nonzero (x : f64) : Prop :=
+  valid_f64 x = true /\ is_finite x = true /\ is_zero x = false.
+
+Lemma finite_nonzero_ok x : finite_nonzero x -> shortest_digits_ok x = true.
+Proof.
+  intros (Hv & Hf & Hz). destruct x as [s | s | | s m e]; try discriminate.
+  apply shortest_digits_ok_valid. exact Hv.
+Qed.
+
+Theorem parse_format_json x :
+  finite_nonzero x -> parse_float (format_json_number x) = PFOk x.
+Proof. intros H. apply parse_format_json_partial, finite_nonzero_ok, H. Qed.
+
+Theorem parse_format_g x :
+  finite_nonzero x -> parse_float (format_float_g x) = PFOk x.
+Proof. intros H. apply parse_format_g_partial, finite_nonzero_ok, H. Qed.
+
+Theorem parse_format_e x :
+  finite_nonzero x -> parse_float (format_float_e x) = PFOk x.
+Proof. intros H. apply parse_format_e_partial, finite_nonzero_ok, H. Qed.
+
+Theorem parse_format_f x :
+  finite_nonzero x -> parse_float (format_float_f x) = PFOk x.
+Proof. intros H. apply parse_format_f_partial, finite_nonzero_ok, H. Qed.
+
+Example finite_nonzero_ex : finite_nonzero (f_of_bits 0x3fb999999999999a).
+Proof. repeat split. Qed.
+
+Print Assumptions shortest_digits_ok_valid.
+Print Assumptions parse_format_json.
+Print Assumptions parse_format_g.
